@@ -1,7 +1,138 @@
-(* C02 - XML -> Map -> XML -> Map is a fixed point; re-encoded XML is well formed.  Statements only. *)
-From Mxj Require Import Spec.Items.
+(* C02 - XML -> Map -> XML -> Map is a fixed point; re-encoded XML is well formed.
+   Statements only; proofs in Proofs/XmlStr.v XmlItems.v XmlRT.v XmlWF.v XmlImgG.v
+   C02Dec.v C02Cast.v C02RT.v C02P.v.
 
-(* no whitespace at all is admissible under every option vector (the compact encoder) *)
-Theorem ws_none_ok : forall o, ws_ok o no_ws.
-Proof. intros o i. reflexivity. Qed.
-Print Assumptions ws_none_ok.
+   Reading.  [toks_of_doc d] (Spec/Conv.v) is the token stream of the document d;
+   [xml_decode pf nskip o c] (Model/XmlDec.v) is NewMapXml(doc, c) under the options o;
+   [map_xml_items] / [map_xml_indent_items] (Model/XmlEnc.v) are the items Map.Xml /
+   Map.XmlIndent write; [toks_of_items] (Spec/Items.v) is what the tokenizer reads back;
+   [insert_ws ws] puts whitespace [ws i] in every gap between items; [ws_ok o ws]: every
+   [ws i] consists of characters the decoder trims under o (blank, tab, newline; under
+   DisableTrimWhiteSpace: tab and newline only - blanks written by XmlIndent are then data,
+   see [keepspaces_indent_refuted]); [veqb] is equality of Maps up to entry order.
+   [sym02 o]: the symmetric option combinations (Spec/Shape.v); [dom02 o d]: element and
+   attribute names are names and no element key begins with the attribute prefix;
+   [pf_hyps pf] (Proofs/C02Cast.v): print/parse round trip of float64 through %v and
+   strconv.ParseFloat, used only when the cast argument is true. *)
+From Mxj Require Import Spec.Shape Spec.Img Proofs.C02Cast Proofs.C02P Run.RunXml.
+
+(* ---- the fixed point, for all documents of the domain and all symmetric options ---- *)
+Theorem xml_fixed_point : forall pf o c, sym02 o -> (c = true -> pf_hyps pf) ->
+  forall d m, dom02 o d = true ->
+  xml_decode pf nskip o c (toks_of_doc d) TermEOF = Ok m ->
+  exists mm its,
+    m = VMap mm /\
+    map_xml_items o mm None = Ok its /\ map_xml_indent_items o mm None = Ok its /\
+    wf_items its /\ single_root its /\
+    forall ws, ws_ok o ws ->
+      exists m', xml_decode pf nskip o c (toks_of_items (insert_ws ws its)) TermEOF = Ok m' /\
+                 veqb m' m = true.
+Proof. exact fixed_point_doc. Qed.
+Print Assumptions xml_fixed_point.
+
+(* without cast no assumption about ParseFloat is involved *)
+Corollary xml_fixed_point_uncast : forall pf o, sym02 o ->
+  forall d m, dom02 o d = true ->
+  xml_decode pf nskip o false (toks_of_doc d) TermEOF = Ok m ->
+  exists mm its,
+    m = VMap mm /\
+    map_xml_items o mm None = Ok its /\ map_xml_indent_items o mm None = Ok its /\
+    wf_items its /\ single_root its /\
+    forall ws, ws_ok o ws ->
+      exists m', xml_decode pf nskip o false (toks_of_items (insert_ws ws its)) TermEOF = Ok m' /\
+                 veqb m' m = true.
+Proof. intros pf o Hs. apply (fixed_point_doc pf o false Hs). discriminate. Qed.
+Print Assumptions xml_fixed_point_uncast.
+
+(* ---- the two halves ---- *)
+(* every Map the decoder returns for a token stream of the domain has the decoder shape *)
+Theorem decode_shape : forall pf o c, sym02 o -> (c = true -> pf_hyps pf) ->
+  forall ts tm m, toks02 o ts = true -> xml_decode pf nskip o c ts tm = Ok m ->
+  exists K v, m = VMap [(K, v)] /\ elem_key_ok o K /\ eshape pf o c v.
+Proof. exact decode_shape02. Qed.
+Print Assumptions decode_shape.
+
+(* every value of decoder shape is written as one well-formed element and read back equal,
+   under any admissible indentation: nothing lost, duplicated or moved to another parent *)
+Theorem roundtrip_shape : forall pf o c, sym02 o ->
+  forall K v, elem_key_ok o K -> eshape pf o c v ->
+  exists its, enc o v K = Ok its /\ wf_items its /\ single_root its /\
+    forall ws, ws_ok o ws ->
+      exists x, xml_decode pf nskip o c (toks_of_items (insert_ws ws its)) TermEOF = Ok (VMap [(K, x)]) /\
+                veqb x v = true.
+Proof. exact roundtrip_shape. Qed.
+Print Assumptions roundtrip_shape.
+
+(* ---- the by-design exception (KNOWN_FINDINGS key keepspaces-indent) ----
+   Under DisableTrimWhiteSpace the blanks an indented encoder writes are data: with
+   indentation that contains a blank the round trip is NOT a fixed point.  [ws_ok]
+   excludes exactly this. *)
+Definition o_keep : opts :=
+  mko (s "-") false false false true false false true true false false false false true false (s "#").
+Definition nm (x : string) : xname := {| xspace := []; xlocal := s x |}.
+Definition d_small : doc :=
+  {| d_prolog := []; d_root := Elem (nm "a") [] [NElem (Elem (nm "b") [] [NText (s "1")])]; d_trailer := [] |}.
+(* <a>\n  <b>1</b>\n</a> : what XmlIndent("", "  ") writes *)
+Definition ws_indent (i : nat) : str :=
+  if Nat.eqb i 1 then ascii_of_nat 10 :: s "  " else if Nat.eqb i 4 then [ascii_of_nat 10] else [].
+Definition pf_none (x : str) : option flt := None.
+
+Theorem keepspaces_indent_refuted :
+  sym02 o_keep /\ dom02 o_keep d_small = true /\
+  exists mm its m',
+    xml_decode pf_none nskip o_keep false (toks_of_doc d_small) TermEOF = Ok (VMap mm) /\
+    map_xml_indent_items o_keep mm None = Ok its /\
+    xml_decode pf_none nskip o_keep false (toks_of_items (insert_ws ws_indent its)) TermEOF = Ok m' /\
+    veqb m' (VMap mm) = false.
+Proof.
+  split; [constructor; try reflexivity; try discriminate; right; reflexivity|].
+  split; [reflexivity|].
+  eexists. eexists. eexists. split; [vm_compute; reflexivity|].
+  split; [vm_compute; reflexivity|]. split; [vm_compute; reflexivity|]. vm_compute. reflexivity.
+Qed.
+Print Assumptions keepspaces_indent_refuted.
+
+(* ---- non-vacuity ---- *)
+(* attribute prefix "A_", lower-case and snake-case folding, simple-values-as-map, decoder-side escaping, key prefix "$" *)
+Definition o_ex : opts :=
+  mko (s "A_") false true true false true false true true false false false false false true (s "$").
+Example o_ex_sym : sym02 o_ex.
+Proof. constructor; try reflexivity; try discriminate. left. reflexivity. Qed.
+Example o_keep_sym : sym02 o_keep.
+Proof. constructor; try reflexivity; try discriminate. right. reflexivity. Qed.
+Example opts0e_sym : sym02 opts0e.
+Proof. constructor; try reflexivity; try discriminate. left. reflexivity. Qed.
+
+Definition d_ex : doc :=
+  {| d_prolog := [NOther (TComment (s "c"))];
+     d_root := Elem (nm "Ab") [{| aname := nm "Id"; avalue := s "<7>" |}]
+                    [NText (s " x&y "); NElem (Elem (nm "b") [] [NText (s "1")]);
+                     NElem (Elem (nm "b") [] [NText (s " 2.5 ")]); NElem (Elem (nm "c-d") [] [])];
+     d_trailer := [] |}.
+Example d_ex_dom : dom02 o_ex d_ex = true.
+Proof. reflexivity. Qed.
+Example d_ex_decodes : exists m, xml_decode pf_none nskip o_ex false (toks_of_doc d_ex) TermEOF = Ok m.
+Proof. eexists. vm_compute. reflexivity. Qed.
+
+(* a ParseFloat table that satisfies the assumptions, and a cast document *)
+Definition pf_ex (x : str) : option flt :=
+  if str_eqb x (s "2.5") then Some (s "2.5")
+  else if str_eqb x (s "1e3") || str_eqb x (s "1000") then Some (s "1000") else None.
+Example pf_ex_hyps : pf_hyps pf_ex.
+Proof.
+  split; [|split; reflexivity]. intros x f. unfold pf_ex.
+  destruct (str_eqb x (s "2.5")); [intro H; inversion H; subst; repeat split; try reflexivity; discriminate|].
+  destruct (str_eqb x (s "1e3") || str_eqb x (s "1000")); [|discriminate].
+  intro H; inversion H; subst; repeat split; try reflexivity; discriminate.
+Qed.
+Definition d_cast : doc :=
+  {| d_prolog := [];
+     d_root := Elem (nm "a") [{| aname := nm "n"; avalue := s "1e3" |}]
+                    [NElem (Elem (nm "b") [] [NText (s "2.5")]); NElem (Elem (nm "b") [] [NText (s "true")]);
+                     NElem (Elem (nm "b") [] [NText (s "x")])];
+     d_trailer := [] |}.
+Example d_cast_decodes :
+  dom02 opts0e d_cast = true /\
+  xml_decode pf_ex nskip opts0e true (toks_of_doc d_cast) TermEOF =
+  Ok (VMap [(s "a", VMap [(s "-n", VFlt (s "1000")); (s "b", VList [VFlt (s "2.5"); VBool true; VStr (s "x")])])]).
+Proof. split; reflexivity. Qed.
